@@ -1,4 +1,5 @@
 import PygVerif.Props.C05
+import PygVerif.Model.Serve
 /-!
 # C06 — The same site is seen through every protocol
 -/
@@ -138,6 +139,25 @@ theorem host_only_same_port (srv : ServerId) (e : Entry) (h : Str) (hh : e.host 
       lit "gopher://" ++ h ++ [58] ++ toDec srv.port ++ [47] ++ q := by
   refine ⟨by simp [portOf, hp], by simp [hostOf, hh], ?_⟩
   simp [linkUrl, hu, Entry.isLocal, hh, hne, Entry.geturl, hu2, hp]
+
+/-- **One entry list, six renderings (end to end).**  For a selector the handler chain answers
+    with a menu, the response of every protocol is its own framing around `listingBody` of the
+    *same* directory entry and the *same* entry list — `handled` has no protocol argument.  (With
+    `walk_entries` / `abstracts_uniform`: same link entries, same order, same names.) -/
+theorem same_entries_every_protocol (c : ServeCfg) (st : StatFn) (rq : Parsed) (self : Entry) (es : List Entry)
+    (hh : handled c st rq.selector = .menu self es) (hi : rq.geminiInput = none) (hb : rq.badRequest = false) :
+    respondParsed c st .gopher rq = (listingBody c.render .gopher false self es).map (fun r => [.text r]) ∧
+    respondParsed c st .gemini rq = (listingBody c.render .gemini false self es).map
+      (fun r => [.text (statusLine (lit "20") (lit "text/gemini") ++ r ++ footerText c.geminiFooter)]) ∧
+    respondParsed c st .spartan rq = (listingBody c.render .spartan false self es).map
+      (fun r => [.text (statusLine (lit "2") (lit "text/gemini") ++ r ++ footerText c.spartanFooter)]) ∧
+    (isPrefixB (lit "/PYGOPHERD-HTTPPROTO-ICONS/") rq.selector = false → rq.head = false →
+      respondParsed c st .wap rq = (listingBody c.render .wap false self es).map
+        (fun r => [.text (httpHeaders none (wapAdjust self.mimetype).1 ++ wapDirStart self.name ++ r ++ wapDirEnd)])) := by
+  refine ⟨by simp [respondParsed, hh, hi, hb, Wire.ofProto], by simp [respondParsed, hh, hi, hb, Wire.ofProto],
+    by simp [respondParsed, hh, hi, hb, Wire.ofProto], ?_⟩
+  intro hicon hhead
+  simp [respondParsed, hh, hi, hb, Wire.ofProto, hicon, hhead]
 
 /-! non-vacuity -/
 example : qsSearch (lit "searchrequest=a%20b%FF") = some (lit "a b" ++ [0xDCFF]) := by decide +kernel
